@@ -13,8 +13,27 @@ def binding? (s : String) : Option Routing.SchedBinding :=
 
 def sortStrs (l : List String) : List String := (l.toArray.qsort (· < ·)).toList
 
+/-- A change of queue `q` made through the queue's public API by somebody who is not its worker
+(AddFirst, Remove, Filter of a user of the queue package). Not a label of the proven step machine: the
+driver edits the items, the worker's later steps then read what is there, as the code does. -/
+def extItems (st : Worker.St) (q : Nat) (f : Queue.Items → Queue.Items) : Worker.St × String :=
+  match st.s.qs q with
+  | none => (st, "bad-op")
+  | some qs =>
+    let s' : ShellOp.Worker.State := { st.s with qs := ShellOp.Worker.upd st.s.qs q { qs with items := f qs.items } }
+    ({ st with s := s' }, Worker.obs s')
+
 def step (st : Worker.St) (toks : List String) : Worker.St × String :=
   match toks with
+  | ["ext", "addfirst", q, t] => match q.toNat?, t.toNat? with
+    | some q, some t => extItems st q (fun its => Queue.addFirst its t)
+    | _, _ => (st, "bad-op")
+  | ["ext", "remove", q, t] => match q.toNat?, t.toNat? with
+    | some q, some t => extItems st q (fun its => (Queue.remove its t).2)
+    | _, _ => (st, "bad-op")
+  | ["ext", "filter", q, keep] => match q.toNat?, natList? keep with
+    | some q, some keep => extItems st q (fun its => Queue.filter its (fun x => keep.contains x))
+    | _, _ => (st, "bad-op")
   | "schedfan" :: args =>
     -- EnableScheduleBindings over the bindings the loader produced, then HandleEvent for one crontab:
     -- the (binding, queue) infos, sorted (Go walks the map in any order)
